@@ -1,12 +1,36 @@
+"""C12 -- pacing against real time.
+(a) level S: whole simulations at speeds 1/2, 1, 2 compared with Model/Sim.v; Coq oracle: no tick earlier than
+    the speed allows (96).
+(b) level M: the real MasterScheduler driven message by message with real-time costs (answers in flight,
+    interrupts in every phase): every sleep it arms and every tick time -- hence every interrupt stamp -- is
+    compared with Model/Master.v, for which C12_exact / C12_stamp are proved."""
 import sprops
+from props import c07
 
 PID = "C12"
 
 
+def m_level(ck, tier, rng):
+    mcases, mbad = c07.m_part(ck, tier, rng)
+    ck.coverage.update(master_scripts=len(mcases), master_disagreements=len(mbad))
+    hit = [i for i in sorted(mbad) if 101 in mbad[i]]
+    if hit and not ck.violations:
+        c = mcases[hit[0]]
+        ck.report("correspondence-broken", "MasterScheduler arms other sleeps / starts ticks at other times than the model of the pacing "
+                  "arithmetic, but no tick earlier than the speed allows was found",
+                  dict(kind="master", conns=c["conns"], comps=c["comps"], initial=c["initial"], speed=c["speed"],
+                       events=[[r, list(e), [list(o) for o in outs]] for r, e, outs in c["events"]], codes=mbad[hit[0]],
+                       broken="correspondence Model/Master.v vs master.py; theorems C12_exact, C12_stamp of Props.C12"), no_input=True)
+
+
 def main(tier, seed):
     return sprops.main_S(PID, tier, seed, {96}, "Props.C12",
-                         ["Model/Sim.v", "Model/Master.v", "Oracle/SimCheck.v", "Oracle/SimOracle.v", "Proofs/MasterP.v", "Props/C12.v"],
-                         "pacing", "callbacks")
+                         ["Model/Sim.v", "Model/Master.v", "Oracle/SimCheck.v", "Oracle/SimOracle.v", "Oracle/MasterOracle.v",
+                          "Proofs/MasterP.v", "Props/C12.v"],
+                         "pacing", "callbacks", extra=m_level)
 
 
-replay = sprops.replay_S
+def replay(rp):
+    if rp.get("kind") == "master":
+        return c07.replay(rp)
+    return sprops.replay_S(rp)
